@@ -358,6 +358,14 @@ psgstrf_MemInit(int_t n, int_t annz, superlumt_options_t *superlumt_options,
 	    nzlmax /= 2;
 	    if ( nzumax <= annz/2 ) { /* "<=": annz/2 is 0 for a 1x1 matrix */
 		printf("Not enough memory to perform factorization.\n");
+		if ( whichspace == SYSTEM ) { /* give back what was obtained */
+		    SUPERLU_FREE(lusup);
+		    SUPERLU_FREE(xsup); SUPERLU_FREE(xsup_end);
+		    SUPERLU_FREE(supno);
+		    SUPERLU_FREE(xlsub); SUPERLU_FREE(xlsub_end);
+		    SUPERLU_FREE(xlusup); SUPERLU_FREE(xlusup_end);
+		    SUPERLU_FREE(xusub); SUPERLU_FREE(xusub_end);
+		}
 		return (psgstrf_memory_use(nzlmax, nzumax, nzlumax) + n);
 	    }
 	    ucol  = (float *) psgstrf_expand( &nzumax, UCOL, 0, 0, Glu );
@@ -370,6 +378,14 @@ psgstrf_MemInit(int_t n, int_t annz, superlumt_options_t *superlumt_options,
 	    printf("Not enough memory to perform factorization .. "
 		   "need %.1f GBytes\n", t*1e-9);
 	    fflush(stdout);
+	    if ( whichspace == SYSTEM ) { /* give back what was obtained */
+		SUPERLU_FREE(ucol); SUPERLU_FREE(lsub); SUPERLU_FREE(usub);
+		SUPERLU_FREE(xsup); SUPERLU_FREE(xsup_end);
+		SUPERLU_FREE(supno);
+		SUPERLU_FREE(xlsub); SUPERLU_FREE(xlsub_end);
+		SUPERLU_FREE(xlusup); SUPERLU_FREE(xlusup_end);
+		SUPERLU_FREE(xusub); SUPERLU_FREE(xusub_end);
+	    }
 	    return (t);
 	}
 	
